@@ -151,8 +151,8 @@ func (c06) Info(t core.Tier) core.Info {
 		Level: "exploration",
 		Rule: fmt.Sprintf("every call is wrapped in recover(); a worker death is attributed to its case through the BEGIN log and re-run alone. workload: (a) %d hostile Go values (named and unnamed maps incl. non-string / named keys and many element types, structs with unexported / embedded / pointer fields, typed nils of every kind, pointer chains to depth 5, NaN/Inf/-0, extreme integers, invalid UTF-8, 1 MB strings, arrays, channels, funcs) x %d schema kinds x 4 placements (top level, struct field, slice element, behind pointer); "+
 			"(b) random schemas with a hostile value injected at a random position; (c) %d JSON documents (every prefix of a valid document, wrong top-level types, {}, null, duplicate keys, 1e999, depth 12000, BOM, NUL, invalid UTF-8, trailing data, 1 MB strings) through zjson and zhttp (Struct and Ptr(Struct) schemas, faulty readers failing after k bytes and 1-byte reads); (d) %d URL-encoded bodies / query strings through zhttp for 5 methods; environment variables through zenv; "+
-			"(e) random byte-level mutations (flip, delete, insert, duplicate, truncate) of a valid JSON document and of a valid form through zjson / zhttp; (f) valid but unusual configuration: schema keys of 1..2048 bytes, 200-field structs, depth-8 nesting, Unicode field names. oracle: Parse returns (issues or not). non-trivial: input whose dynamic type/shape is outside {map[string]any, []any, string, int, float64, bool, time.Time} or malformed wire input; distinct by (input, schema, placement).",
-			len(c06Hostile), len(c06Schemas), len(c06JSONDocs()), len(c06Forms)),
+			"(e) random byte-level mutations (flip, delete, insert, duplicate, truncate) of a valid JSON document and of a valid form through zjson / zhttp; (f) valid but unusual configuration: schema keys of 1..2048 bytes, 200-field structs, depth-8 nesting, Unicode field names; (g) %d schemas built directly on the API that the generator cannot express (custom schemas over arrays, interfaces, maps, funcs, channels, structs with interface fields; slice Contains / OneOf with slices, maps, NaN, nil and structs holding uncomparable values) x own inputs + every hostile value x 4 placements. oracle: Parse returns (issues or not). non-trivial: input whose dynamic type/shape is outside {map[string]any, []any, string, int, float64, bool, time.Time} or malformed wire input; distinct by (input, schema, placement).",
+			len(c06Hostile), len(c06Schemas), len(c06JSONDocs()), len(c06Forms), len(c06Directs)),
 		Assumptions: commonAssumptions,
 		MinDistinct: 1000,
 	}
@@ -171,7 +171,7 @@ func c06Mutated(t core.Tier) int { return tierN(t, 1500, 200000) }
 
 func (c06) NumCases(t core.Tier) int {
 	a, b, cc, d, e := c06Counts(t)
-	return a + b + cc + d + e + c06Mutated(t)
+	return a + b + cc + d + e + len(c06Directs) + c06Mutated(t)
 }
 
 // mutateBytes applies a few random byte-level edits (flip, delete, insert, duplicate, truncate).
@@ -307,6 +307,8 @@ func (c06) RunCase(c *core.Ctx) {
 		c06Form(c, c06Forms[i-a-b-cc])
 	case i < a+b+cc+d+40:
 		c06Config(c, i-a-b-cc-d)
+	case i < a+b+cc+d+40+len(c06Directs):
+		c06DirectCase(c, c06Directs[i-a-b-cc-d-40])
 	default:
 		c06MutatedCase(c)
 	}
